@@ -27,6 +27,28 @@ def ti_sweep(ctx):
                        % (res["checked"], "all 2^32" if per_low == 0 else "2^18 low words x %d seeded settings of bits 18..31" % per_low)])
 
 
+def tlaps_timestamps(ctx):
+    """C17, thorough tier and extras: the unbounded arithmetic identities behind the numeral formulation, proved by TLAPS (SMT back end).
+    A supplement to the bounded instances and the conformance run, not a replacement: it says nothing about the code."""
+    import os as _os, subprocess as _sp, shutil as _sh
+    if ctx["tier"] == "quick" and not ctx.get("always"):
+        return dict(calls=0, nontrivial=0, distinct_nontrivial=0, disagreements=[], notes=[])
+    d = _os.path.join(ctx["SPEC"], "proofs")
+    _sh.rmtree(_os.path.join(d, ".tlacache"), ignore_errors=True)
+    p = _sp.run(["timeout", "600", "tlapm", "--threads", "4", "--cleanfp", "TimestampArith.tla"], cwd=d, stdout=_sp.PIPE, stderr=_sp.STDOUT, text=True)
+    _sh.rmtree(_os.path.join(d, ".tlacache"), ignore_errors=True)
+    import re as _re
+    m = _re.search(r"All (\d+) obligations? proved", p.stdout)
+    if not m:
+        raise ctx["ToolError"]("tlapm did not prove spec/proofs/TimestampArith.tla:\n" + p.stdout[-1500:])
+    return dict(calls=0, nontrivial=0, distinct_nontrivial=0, disagreements=[],
+                notes=["TLAPS: %s obligations of spec/proofs/TimestampArith.tla proved (FromMsDenotes, FromUsDenotes, SameInstant over all naturals)" % m.group(1)])
+
+
+def tlaps_timestamps_always(ctx):
+    return tlaps_timestamps(dict(ctx, always=True))
+
+
 SLICE_RULE = ("direction A: every state of the TLC builder machine is one case; direction B: seeded random / mutated / boundary-aimed inputs. "
               "An event is non-trivial when its input reaches past the fixed headers (>= 4 bytes after an optional storage header) "
               "and distinct by the hash of its full JSON line (input and result).")
@@ -183,6 +205,7 @@ PLANS = {
         steps=[
             mc("numeric", "MCNumeric", "MCNumeric_quick.cfg", "MCNumeric_thorough.cfg", replay=("build", "ts", "ts")),
             rec("build", "ts", "TraceBuild", 1500, 1500000, 2, 12),
+            dict(kind="custom", fn=tlaps_timestamps),
         ],
         rule="boundary inputs (0, unit +-1, 2^32*unit +-1, powers of two and ten +-1, remainders that overflow a 32-bit product) and seeded random u64; distinct by the hash of the JSON line",
         explanation="The model is two lines (drop the last limb(s) of the base-1000 numeral of the input, obtained textually from its decimal string); its value is an independent statement "
@@ -309,6 +332,7 @@ PLANS = {
             rec("stats", "pipeline", "TraceStats", 600, 20000, 2, 8),
             rec("fibex", "decode", "TraceDecode", 200, 4000, 2, 8),
             mc("decode", "MCDecode", "MCDecode.cfg", "MCDecode.cfg", replay=("fibex", "decode")),
+            dict(kind="custom", fn=tlaps_timestamps_always),
         ],
         rule="service ids / control types: all 256 bytes; type widths, argument counts: seeded random; pipeline: seeded random well-formed streams x random filters",
         explanation="Beyond the listed properties: service_id_lookup, ControlType::from_value / value, TypeInfo::type_width, PayloadContent::arg_count, LogLevel -> log::Level "
